@@ -1317,6 +1317,35 @@ class Interp:
         loop = Act("<loop>")
         self.ctx.append(("loopctl", loop))
         try:
+            # `for x in [opt_a, opt_b].into_iter().flatten()`: a literal list of optional items, each visited when present
+            if isinstance(lit, CallV) and lit.callee.endswith("Iterator::flatten") and lit.args:
+                tab_ = self._table(lit.args[0])
+                opts_ = None
+                if tab_ is not None and 0 < len(tab_.items) <= 16:
+                    opts_ = []
+                    for x in tab_.items:
+                        x0_ = core(x)
+                        if isinstance(x0_, CallV) and x0_.callee == "std::option::Option::map" and len(x0_.args) == 2 and isinstance(x0_.args[1], Via) \
+                                and x0_.args[1].name == "closure-result" and isinstance(core(x0_.args[0]), (Param, Sel)):
+                            # `opt.map(f)` of a symbolic option: present exactly when `opt` is, with f's result as the item
+                            opts_.append((atom("some", core(x0_.args[0]).r()), x0_.args[1].inner))
+                            continue
+                        fl_ = flatten_phi(x)
+                        if not fl_ or not all(isinstance(core(y), StructV) and core(y).variant in ("Some", "None") for _, y in fl_):
+                            opts_ = None
+                            break
+                        opts_ += [(c_, core(y).fields.get("0", UNIT)) for c_, y in fl_ if core(y).variant == "Some" and c_ is not False]
+                if opts_ is not None:
+                    for c_, x in opts_:
+                        self.ctx.append(("cond", c_))
+                        self.ctx.append(("iter", Act("<iter>")))
+                        try:
+                            self.bindpat(n["pat"], x, fr)
+                            self.ev(n["body"], fr)
+                        finally:
+                            self.ctx.pop()
+                            self.ctx.pop()
+                    return UNIT
             if isinstance(lit, ArrayV) and 0 < len(lit.items) <= 64:
                 # a loop over a literal table: unroll it; `continue` skips the rest of one iteration, `break` the rest
                 # of the loop (both as conditions on what follows)
